@@ -73,6 +73,12 @@ type SchemaSpec struct {
 	Types    []TypeSpec `json:"types"`
 	Query    string     `json:"query"`
 	Mutation string     `json:"mutation,omitempty"`
+	// Dirs: which executable directives the server declares: "" = @skip and @include (default), "none",
+	// "skip", "include", "custom" (both + @tag).
+	Dirs string `json:"dirs,omitempty"`
+	// DescMode: 0 = no descriptions, 1 = single-line, 2 = hostile (newlines, */, //, backticks, quotes,
+	// non-ASCII) descriptions on types, fields, arguments, enum values and directives.
+	DescMode int `json:"desc_mode,omitempty"`
 	// Subscription root (independent of Mutation: all four combinations are generated)
 	Subscription string `json:"subscription,omitempty"`
 }
@@ -205,6 +211,7 @@ type Sel struct {
 	Arg     *int   `json:"arg,omitempty"`  // value of the optional argument n
 	Cond    string `json:"cond,omitempty"` // inline fragment type condition ("" = none)
 	Sels    []Sel  `json:"sels,omitempty"`
+	Dir     string `json:"dir,omitempty"`  // a directive on the selection, e.g. "@include(if: true)" (ignored by the generator and the model)
 	RawTail string `json:"raw,omitempty"` // appended verbatim (used by the syntax-error mutation)
 }
 
@@ -253,16 +260,25 @@ func renderSels(b *strings.Builder, sels []Sel) {
 			if s.Arg != nil {
 				fmt.Fprintf(b, "(n: %d)", *s.Arg)
 			}
+			if s.Dir != "" {
+				b.WriteString(" " + s.Dir)
+			}
 			if len(s.Sels) > 0 {
 				b.WriteString(" ")
 				renderSels(b, s.Sels)
 			}
 		case "s":
 			b.WriteString("..." + s.Name)
+			if s.Dir != "" {
+				b.WriteString(" " + s.Dir)
+			}
 		case "i":
 			b.WriteString("...")
 			if s.Cond != "" {
 				b.WriteString(" on " + s.Cond)
+			}
+			if s.Dir != "" {
+				b.WriteString(" " + s.Dir)
 			}
 			b.WriteString(" ")
 			renderSels(b, s.Sels)
